@@ -171,3 +171,13 @@ Example C04_match_example :
   variant_match stored q0 q1 = Some true /\ variant_match stored q0 q2 = Some false /\
   variant_match [(bs "Vary", [bs "Accept-Encoding"; bs "*"])] q0 q1 = Some false.
 Proof. vm_compute. repeat split; reflexivity. Qed.
+
+(* the effect trees this property is stated about — which store / origin / clock operations happen, in which order, under
+   which conditions, and what every path returns — are those /verif/translate derives from the Go source on this run
+   (Generated/SrcEffects.v; equal up to the extensional equality of continuations, ProgEq.peq, which [run] respects) *)
+From HC.Generated Require Import SrcEffects.
+From HC.Proofs Require Import ProgEq TieEffects.
+Theorem C04_source_effects :
+  (forall q, peq (src_round_trip q) (round_trip q)).
+Proof. exact tie_round_trip. Qed.
+Print Assumptions C04_source_effects.
